@@ -684,7 +684,9 @@ func isBoolType(t interface{ String() string }) bool {
 
 // constBool evaluates conditions that are constants (or a phi of equal constants,
 // the shape of `x && false`).
-func constBool(v ssa.Value) (bool, bool) {
+func constBool(v ssa.Value) (bool, bool) { return constBoolRec(v, map[*ssa.Phi]bool{}) }
+
+func constBoolRec(v ssa.Value, seen map[*ssa.Phi]bool) (bool, bool) {
 	switch x := v.(type) {
 	case *ssa.Const:
 		if x.Value != nil && (x.Value.ExactString() == "true" || x.Value.ExactString() == "false") {
@@ -692,13 +694,23 @@ func constBool(v ssa.Value) (bool, bool) {
 		}
 	case *ssa.UnOp:
 		if x.Op == token.NOT {
-			b, ok := constBool(x.X)
+			b, ok := constBoolRec(x.X, seen)
 			return !b, ok
 		}
 	case *ssa.Phi:
+		if seen[x] {
+			return false, false
+		}
+		seen[x] = true
 		var val, set bool
 		for _, e := range x.Edges {
-			b, ok := constBool(e)
+			if e == ssa.Value(x) {
+				continue
+			}
+			if ph, ok := e.(*ssa.Phi); ok && seen[ph] {
+				return false, false // loop-carried: not a constant
+			}
+			b, ok := constBoolRec(e, seen)
 			if !ok {
 				return false, false
 			}
